@@ -195,6 +195,10 @@ def make_program_job(mods):
         "remove_redundant_boolop_values": mods["fixes"].remove_redundant_boolop_values,
         "simplify_boolean_expressions": mods["symbolic_math"].simplify_boolean_expressions,
         "format_code": main.format_code,
+        # sites of other owners that share a root cause with a C15 hunt item (bisecting format_code failures)
+        "simplify_boolean_expressions_symmath": mods["symbolic_math"].simplify_boolean_expressions_symmath,
+        "simplify_math_iterators": mods["symbolic_math"].simplify_math_iterators,
+        "replace_functions_with_literals": mods["fixes"].replace_functions_with_literals,
     }
 
     def job(j, out):
@@ -543,12 +547,13 @@ def _check(run: common.Run):
     quick = run.tier == "quick"
     families = [
         ("rebound", [p for _, p in H.rebound_builtin_programs()],
-         ["remove_dead_ifs", "delete_unreachable_code", "remove_redundant_boolop_values", "simplify_boolean_expressions"], 3),
+         ["remove_dead_ifs", "delete_unreachable_code", "remove_redundant_boolop_values", "simplify_boolean_expressions",
+          "simplify_math_iterators", "replace_functions_with_literals"], 3),
         ("raising", list(H.raising_operand_programs()),
          ["simplify_boolean_expressions", "remove_redundant_boolop_values", "remove_dead_ifs", "delete_unreachable_code"], 7),
         ("selfcmp", list(H.self_comparison_programs()), ["simplify_boolean_expressions"], 3),
         ("sametext", list(H.identical_operand_programs()),
-         ["simplify_boolean_expressions", "remove_redundant_boolop_values"], 3),
+         ["simplify_boolean_expressions", "remove_redundant_boolop_values", "simplify_boolean_expressions_symmath"], 3),
         ("comp", list(H.comprehension_programs()), ["remove_dead_ifs"], 1),
         ("foriter", list(H.for_iterable_programs()), ["delete_unreachable_code", "remove_dead_ifs"], 1),
     ]
@@ -959,10 +964,88 @@ def _boolop_truth_context_drops_call(f) -> bool:
                for n in ast.walk(tree))
 
 
-SIGS = {"boolop_constant_fold": _boolop_constant_fold, "unbounded_evaluation": _unbounded_evaluation,
+def _binds_and_calls(tree, names) -> bool:
+    bound = set()
+    for n in ast.walk(tree):
+        if isinstance(n, ast.Name) and not isinstance(n.ctx, ast.Load):
+            bound.add(n.id)
+        elif isinstance(n, (ast.FunctionDef, ast.AsyncFunctionDef, ast.ClassDef)):
+            bound.add(n.name)
+        elif isinstance(n, ast.arg):
+            bound.add(n.arg)
+        elif isinstance(n, ast.alias):
+            bound.add((n.asname or n.name).split(".")[0])
+        elif isinstance(n, (ast.Global, ast.Nonlocal)):
+            bound.update(n.names)
+    return any(isinstance(n, ast.Call) and isinstance(n.func, ast.Name) and n.func.id in bound and n.func.id in names
+               for n in ast.walk(tree))
+
+
+def _parse_or_none(text):
+    try:
+        return ast.parse(text)
+    except SyntaxError:
+        return None
+
+
+def _self_equality_of_name(f) -> bool:
+    """F15-12: `x == x` / `a.b == a.b` (a name or attribute chain compared with itself) is folded to True."""
+    tree = _parse_or_none(f["program"])
+    if tree is None or f["rule"] not in ("simplify_boolean_expressions", "format_code"):
+        return False
+
+    def name_chain(n):
+        while isinstance(n, ast.Attribute):
+            n = n.value
+        return isinstance(n, ast.Name)
+    return any(isinstance(n, ast.Compare) and len(n.ops) == 1 and isinstance(n.ops[0], ast.Eq) and name_chain(n.left)
+               and ast.unparse(n.left) == ast.unparse(n.comparators[0]) for n in ast.walk(tree))
+
+
+def _same_text_operands_symmath(f) -> bool:
+    """F15-13 (hunt C15-3, owner c17h): the sympy-based rule gives one symbol to all operands with the same text.
+    Predicate: that rule (or the pipeline) and an and/or (possibly nested) in which two sub-operands, `not` stripped,
+    have the same text and contain a call."""
+    tree = _parse_or_none(f["program"])
+    if tree is None or f["rule"] not in ("simplify_boolean_expressions_symmath", "format_code"):
+        return False
+    for n in ast.walk(tree):
+        if isinstance(n, ast.BoolOp):
+            texts = []
+            for v in ast.walk(n):
+                if isinstance(v, (ast.BoolOp,)) or (isinstance(v, ast.UnaryOp) and isinstance(v.op, ast.Not)):
+                    continue
+                if any(isinstance(c, ast.Call) for c in ast.walk(v)) and isinstance(v, ast.expr):
+                    texts.append(ast.unparse(v))
+            if len(texts) != len(set(texts)):
+                return True
+    return False
+
+
+def _rebound_sum(f) -> bool:
+    """F15-14 (hunt C15-0, owner c17h): simplify_math_iterators evaluates sum(...) although the file rebinds sum."""
+    tree = _parse_or_none(f["program"])
+    return tree is not None and f["rule"] in ("simplify_math_iterators", "format_code") and _binds_and_calls(tree, {"sum"})
+
+
+def _rebound_container_builtin(f) -> bool:
+    """F15-15 (hunt C15-0, owner fxb): replace_functions_with_literals turns list(()) / tuple(..) / set(..) / dict(..)
+    into displays although the file rebinds the name."""
+    tree = _parse_or_none(f["program"])
+    return tree is not None and f["rule"] in ("replace_functions_with_literals", "format_code") and _binds_and_calls(
+        tree, {"list", "tuple", "set", "dict", "sorted"})
+
+
+SIGS = {"self_equality_of_name": _self_equality_of_name, "same_text_operands_symmath": _same_text_operands_symmath,
+        "rebound_sum": _rebound_sum, "rebound_container_builtin": _rebound_container_builtin,
+        "boolop_constant_fold": _boolop_constant_fold, "unbounded_evaluation": _unbounded_evaluation,
         "boolop_truth_context_drops_call": _boolop_truth_context_drops_call}
 WITNESS = {
-    "F15-11": ("simplify_boolean_expressions", PROGRAM_PRELUDE + "if f() and 0:\n    print(1)\nprint(3)\n"),
+    "F15-12": ("simplify_boolean_expressions", "x = float('nan')\nprint(x == x)\n"),
+    "F15-13": ("simplify_boolean_expressions_symmath",
+               "it = iter([1, 0])\nif next(it) and not next(it):\n    print('T')\nelse:\n    print('F')\n"),
+    "F15-14": ("simplify_math_iterators", "def sum(*a):\n    return 0\nprint(sum((1, 2)))\n"),
+    "F15-15": ("replace_functions_with_literals", "def list(*a):\n    return 1\nprint(list(()))\n"),
     "F15-7": ("remove_dead_ifs", "if 3 ** 10 ** 8:\n    print(1)\n"),
 }
 
